@@ -193,6 +193,39 @@ def failing_calls(rng, cs, texts):
             now = charset_now()
             reset_charset()
             return ('leak-after-failed-save', 'after save(non-integer time in message %d, charset=%s) -> %s the process charset is %r' % (k, cs, outcome, now)), n
+    # the output refuses the k-th write (disk full, closed pipe): the charset is the default again as soon as save() has given up - inside the
+    # handler, and afterwards while the exception object is still kept (a log, a pytest.raises block)
+    class Refusing(io.RawIOBase):
+        def __init__(self, room):
+            super().__init__()
+            self.room = room
+
+        def writable(self):
+            return True
+
+        def write(self, data):
+            if self.room <= 0:
+                raise OSError(28, 'No space left on device')
+            self.room -= 1
+            return len(data)
+    kept = []
+    for room in range(0, 12):
+        n += 1
+        inside = True
+        try:
+            mkfile(cs, texts).save(file=Refusing(room))
+            outcome = 'ok'
+        except Exception as e:  # noqa: BLE001
+            outcome = type(e).__name__
+            kept.append(e)
+            inside = elsewhere_ok()
+        if not inside or not elsewhere_ok():
+            now = charset_now()
+            del kept[:]
+            reset_charset()
+            return ('leak-after-failed-save', 'after save(charset=%s) to a file that refuses write number %d -> %s the process charset is %r (%s)'
+                    % (cs, room + 1, outcome, now, 'while the exception is still being handled' if not inside else 'while the exception object is kept')), n
+    del kept[:]
     unenc = {'latin1': '\u20ac', 'ascii': '\u00e9', 'cp1252': '\u65e5', 'shift_jis': '\u00e9', 'cp437': '\u20ac', 'koi8-r': '\u65e5'}.get(cs)
     if unenc is not None:
         n += 1
